@@ -46,6 +46,14 @@ impl IntoIterator for It {
 
 impl Iterator for ItIter {
     type Item = i64;
+    fn size_hint(&self) -> (usize, Option<usize>) {
+        if self.unbounded {
+            (usize::MAX, None)
+        } else {
+            let left = self.xs.len().saturating_sub(self.pos);
+            (left, Some(left))
+        }
+    }
     fn next(&mut self) -> Option<i64> {
         NEXTS.with(|n| n.borrow_mut()[self.class as usize] += 1);
         if self.unbounded {
